@@ -3,7 +3,9 @@
    through Store.IntentionMutation(upsert)), followed by what the implementation answered:
    the result of every write, Store.Intentions, Store.IntentionMatch by source and by destination
    for every query entry, and Store.IntentionDecision along both routes for every pair. *)
-From Verif Require Import Base.Prelude Intention.Model.
+From Verif Require Import Base.Prelude.
+From Verif Require Import Intention.Model.
+From Verif Require Import Intention.Spec.
 
 Inductive wop :=
 | LSet (i : ixn)                 (* Store.LegacyIntentionSet *)
@@ -102,6 +104,16 @@ Definition check (c : case) : bool :=
    && list_eqb N.eqb (o_r2 o) (c_r2 c))%bool.
 
 Definition mismatches (cs : list case) : list N := failing check cs.
+
+(* How many cases end in a state (and ask about names) that meet the hypotheses of C13_most_specific /
+   C13_paths_agree: valid rows / entries, no two names differing only in case. *)
+Definition in_scope (c : case) : bool :=
+  let qn := map snd (c_qs c) ++ map fst (c_qs c) in
+  match snd (steps (if c_legacy c then SL [] else SC []) (c_ops c)) with
+  | SL t => (legacy_okb t && coherentb (tnames t ++ qn))%bool
+  | SC st => (store_okb st && coherentb (enames st ++ qn))%bool
+  end.
+Definition scope_count (cs : list case) : N := N.of_nat (List.length (filter in_scope cs)).
 
 (* finite tabulations of the structs-level functions, regenerated from the Go code on every run
    (coq/gen/tab_C13.v proves each [.._ok ..= true] by vm_compute) *)
